@@ -5,6 +5,7 @@ import (
 	"fmt"
 	"os"
 	"path/filepath"
+	"pgregory.net/rapid"
 	"sort"
 	"strings"
 	"time"
@@ -41,6 +42,27 @@ func CreateDatabases(eng *mk.Engine) error {
 		}
 	}
 	return nil
+}
+
+// Ages: counter values (last row id, next LSN) of databases that have been in use for a long time - just
+// below 2^16, 2^24 / 2^32, 2^31 / 2^40 and in the upper half of the 32-bit id range.
+var Ages = []struct {
+	Key uint32
+	LSN uint64
+}{{65530, 65530}, {1<<24 - 6, 1<<32 - 4}, {1<<31 - 6, 1 << 40}, {1<<32 - 200000, 1 << 62}}
+
+// DrawAge draws 0 (a new database, five times in eight) or the index+1 of an age.
+func DrawAge(rt *rapid.T) int {
+	return rapid.SampledFrom([]int{0, 0, 0, 0, 0, 1, 2, 3, 3, 4}).Draw(rt, "age")
+}
+
+// AgeDatabase advances the counters of the selected database (hook VerifAdvanceCounters): everything the
+// case does afterwards happens with row ids and LSNs of that magnitude.
+func AgeDatabase(eng *mk.Engine, age int) error {
+	if age <= 0 || age > len(Ages) {
+		return nil
+	}
+	return eng.RS().VerifAdvanceCounters(Ages[age-1].Key, Ages[age-1].LSN)
 }
 
 // OpenFresh starts an engine in a fresh directory with one database selected.
